@@ -527,9 +527,20 @@ pub fn check_math(c: &MathCase, l: &mut Local) -> Result<(), String> {
 }
 
 fn math_case() -> BoxedStrategy<MathCase> {
-    (gen::sqrt_price(), gen::bits_u128(128), gen::amount_u64(), any::<bool>(), gen::any_tick(), 1i32..5000)
-        .prop_flat_map(|(p0, liquidity, amount, flag, lower, w)| (Just((p0, liquidity, amount, flag, lower, w)), gen::target_price(p0)))
-        .prop_map(|((p0, liquidity, amount, flag, lower, w), p1)| MathCase { p0, p1, liquidity, amount, flag, lower, upper: (lower + w).min(MAX_TICK) })
+    // liquidity by magnitude, or (one in four) the exact inverse image of a token amount on a boundary of the u64 result type
+    let target = prop_oneof![3 => Just(None), 1 => (any::<bool>(), 0usize..AMOUNT_TARGETS.len(), any::<u32>()).prop_map(Some)];
+    (gen::sqrt_price(), gen::bits_u128(128), gen::amount_u64(), any::<bool>(), gen::any_tick(), 1i32..5000, target)
+        .prop_flat_map(|(p0, liquidity, amount, flag, lower, w, target)| (Just((p0, liquidity, amount, flag, lower, w, target)), gen::target_price(p0)))
+        .prop_map(|((p0, liquidity, amount, flag, lower, w, target), p1)| {
+            let liquidity = match target {
+                Some((token_a, ti, frac)) if p0 != p1 => {
+                    let (lo, hi) = (p0.min(p1), p0.max(p1));
+                    liquidity_for_amount(if token_a { lo } else { hi }, lo, hi, token_a, AMOUNT_TARGETS[ti], frac).unwrap_or(liquidity)
+                }
+                _ => liquidity,
+            };
+            MathCase { p0, p1, liquidity, amount, flag, lower, upper: (lower + w).min(MAX_TICK) }
+        })
         .boxed()
 }
 
